@@ -473,3 +473,10 @@ def run(ck):
             ck.ob("C14-R7", "now@%s" % f_.base.replace("Pistache::Http::", ""), mono, e.loc, f_,
                   "steady_clock::now()" if mono else "%s(): the time-out arithmetic follows every adjustment of that clock" % strip_tmpl(e["callee"]))
     ck.require(nnow >= 2, "clock reads found in checkIdlePeers / the request parser: %d" % nnow)
+
+    # ---------------- facts shared with C08 ----------------
+    ck.borrow("C08", ["C08-R11"], "C14-R9",
+              "the idle scan looks at every connection: nothing that is filed under a connection's descriptor number (a 'time-out already "
+              "answered' mark, say) survives the connection -- the kernel hands the number to the next client at once, and a mark left "
+              "behind would make the scan skip it, so that it is never answered 408 and never closed", min_instances=2)
+
